@@ -7,7 +7,7 @@
    hypotheses are inhabited live as well. *)
 From Coq Require Import String Ascii.
 From Sdns Require Import Common.Base Common.GoList Gen.C20 C20.Model C20.Spec
-  C20.Proofs_gen C20.Proofs_embed C20.Proofs_ptr C20.Proofs_serve C20.Proofs_loops.
+  C20.Proofs_gen C20.Proofs_embed C20.Proofs_ptr C20.Proofs_serve C20.Proofs_loops C20.Proofs_subq.
 Open Scope N_scope.
 
 (* ------------------------------------------------------------------ *)
@@ -305,3 +305,73 @@ Theorem has_well_known_is_translated :
   go_compiled_hasWellKnown gc = existsb cp_wk ps.
 Proof. exact gen_hasWellKnown_model. Qed.
 Print Assumptions has_well_known_is_translated.
+
+(* ------------------------------------------------------------------ *)
+(* the secondary query (Model.sub_query; observed in every handler case as
+   the question the Queryer received).  "The target's A records": a
+   synthesised reply rests on exactly one lookup, which asked for the A
+   records of the queried name as the client spelled it, class IN, RD set and
+   CD clear — so a validation failure of the A leg is not hidden — and which
+   was answered NOERROR *)
+Theorem a_lookup_question :
+  forall cf q down work al cut s,
+  q_type q = type_aaaa -> sub_query cur cf q down work al cut = Some s ->
+  s = mk_subq (q_name q) type_a class_in true false.
+Proof. exact (a_lookup_question_lem cur). Qed.
+Print Assumptions a_lookup_question.
+
+Theorem synthesis_rests_on_a_lookup :
+  forall cf q down work al cut,
+  x_path (serve cur cf q down work al cut) = PSynth ->
+  sub_query cur cf q down work al cut = Some (mk_subq (q_name q) type_a class_in true false)
+  /\ exists ar, al = QResp ar /\ m_rcode ar = 0.
+Proof. exact (synthesis_rests_on_a_lookup_lem cur). Qed.
+Print Assumptions synthesis_rests_on_a_lookup.
+
+(* the Queryer is asked exactly when the model says so (x_aq is the
+   "Queryer called" bit every other theorem speaks about) *)
+Theorem sub_query_iff_asked :
+  forall cf q down work al cut,
+  sub_query cur cf q down work al cut = None <-> x_aq (serve cur cf q down work al cut) = false.
+Proof. exact (sub_query_asked cur). Qed.
+Print Assumptions sub_query_iff_asked.
+
+(* PTR: the chase asks for the PTR records of the in-addr.arpa name of the
+   decoded address, and that is the name the reply's CNAME points at *)
+Theorem ptr_chase_question :
+  forall cf q down work al cut s,
+  q_type q = type_ptr -> sub_query cur cf q down work al cut = Some s ->
+  exists v4, ptr_target cur (compile cf) (lower (q_name q)) = Some v4
+    /\ s = mk_subq (in_addr_arpa v4) type_ptr class_in true false
+    /\ forall r, x_reply (serve cur cf q down work al cut) = Some r ->
+                 x_path (serve cur cf q down work al cut) = PPtr ->
+                 exists rest, r_answer r = RCNAME (q_name q) ptr_synth_ttl (sq_name s) :: rest.
+Proof. exact (ptr_chase_question_lem cur). Qed.
+Print Assumptions ptr_chase_question.
+
+(* "the matching ip6.arpa PTR query maps back to the same IPv4 address", through
+   the whole handler and for any number of (possibly nested) prefixes: the name
+   that is chased reads back as an IPv4 address whose RFC 6052 embedding under a
+   configured prefix (not excluded there) is the queried address; with one
+   prefix it is the very address that was embedded *)
+Theorem ptr_chase_names_embedded_address :
+  forall cf q down work al cut s addr,
+  Forall (fun p => legal_prefix (cp_net p) /\ bytes_ok (n_ip (cp_net p))) (c_prefixes (compile cf)) ->
+  length addr = 16%nat -> bytes_ok addr -> lower (q_name q) = arpa_name addr -> q_type q = type_ptr ->
+  sub_query cur cf q down work al cut = Some s ->
+  sq_type s = type_ptr /\ sq_class s = class_in /\ sq_rd s = true /\ sq_cd s = false
+  /\ exists p w, In p (c_prefixes (compile cf)) /\ addr = embed (cp_net p) w /\ length w = 4%nat
+       /\ should_exclude_a (compile cf) w p = false
+       /\ spec_parse_in_addr (sq_name s) = Some w.
+Proof. exact ptr_chase_names_embedded_address_lem. Qed.
+Print Assumptions ptr_chase_names_embedded_address.
+
+Theorem ptr_chase_same_address_single_prefix :
+  forall cf q down work al cut s cp v4,
+  c_prefixes (compile cf) = [cp] -> legal_prefix (cp_net cp) -> bytes_ok (n_ip (cp_net cp)) ->
+  length v4 = 4%nat -> bytes_ok v4 ->
+  lower (q_name q) = arpa_name (embed (cp_net cp) v4) -> q_type q = type_ptr ->
+  sub_query cur cf q down work al cut = Some s ->
+  spec_parse_in_addr (sq_name s) = Some v4.
+Proof. exact ptr_chase_single_prefix_lem. Qed.
+Print Assumptions ptr_chase_same_address_single_prefix.
